@@ -346,3 +346,84 @@ func runR09_11(c *kit.Ctx) {
 	}
 	c.Floor("R09.11", "stores of Piece.Done = true in package torrent", n, 1)
 }
+
+// ---- R05.9 missing files invalidate the persisted bitfield --------------------
+//
+// When the allocator had to re-create a file (HasMissing) while a resume bitfield
+// exists, the bits persisted for that file describe data that is gone. The loop
+// re-verifies, but the stale bitfield stays in the database until verification has
+// finished: a second crash in that window restarts with every file present, so
+// HasMissing is false and the stale bitfield is trusted (pieces claimed over a
+// zero-filled file). Necessary condition checked here: on every path of the
+// allocation-result handler that starts the verifier while a resume bitfield may
+// exist, the persisted bitfield has been invalidated first (a write / delete of the
+// bitfield key through the resumer or the database).
+
+func init() { registerExtra("C05", runR05_9) }
+
+func runR05_9(c *kit.Ctx) {
+	k := newKeyer()
+	fHasMissing := c.Field("internal/allocator", "Allocator", "HasMissing")
+	fBitfield := c.Field("torrent", "torrent", "bitfield")
+	startVerifier := c.FuncObj("torrent", "(*torrent).startVerifier")
+	writeBF := c.FuncObj("internal/resumer/boltdbresumer", "(*Resumer).WriteBitfield")
+	n := 0
+	for _, fn := range c.ModuleFunctions() {
+		if !inPkg(fn, c, "torrent") {
+			continue
+		}
+		reads := false
+		kit.Instrs(fn, func(ins ssa.Instruction) {
+			if v, ok := ins.(ssa.Value); ok && kit.Canon(v).IsField(fHasMissing) {
+				reads = true
+			}
+		})
+		if !reads {
+			continue
+		}
+		safe := (&kit.Flow{P: c.Prog, Fn: fn,
+			Edge: func(a kit.Atom) bool {
+				// no resume bitfield on this path
+				return a.IsNilCmp(true, func(e *kit.Expr) bool { return e.IsField(fBitfield) })
+			},
+			Instr: func(ins ssa.Instruction, in bool) bool {
+				if kit.CallsAny(ins, writeBF) {
+					return true
+				}
+				isDelete := func(i2 ssa.Instruction) bool {
+					cc := kit.CallOf(i2)
+					return cc != nil && cc.StaticCallee() != nil && cc.StaticCallee().Name() == "Delete" && strings.HasSuffix(kit.FnPkgPath(cc.StaticCallee()), "bbolt")
+				}
+				if isDelete(ins) {
+					return true
+				}
+				// db.Update(func(tx) { ... b.Delete(bitfield key) ... })
+				if cc := kit.CallOf(ins); isBoltUpdate(cc) {
+					if cb := closureArg(cc); cb != nil {
+						hit := false
+						kit.Instrs(cb, func(i2 ssa.Instruction) {
+							if isDelete(i2) {
+								hit = true
+							}
+						})
+						if hit {
+							return true
+						}
+					}
+				}
+				if v, ok := kit.StoresField(ins, fBitfield); ok && !kit.Canon(v).IsNil() {
+					return false
+				}
+				return in
+			}}).WithDeep(kit.DefaultDeep, nil).Solve()
+		kit.Instrs(fn, func(ins ssa.Instruction) {
+			if !kit.CallsAny(ins, startVerifier) {
+				return
+			}
+			n++
+			c.Check(safe.Before(ins), "R05.9", k.key(fn, "re-verify after missing files"), posOf(ins),
+				"the persisted bitfield is invalidated (or there is none) before files found missing are re-verified", "files found missing were re-created and are re-verified while the stale bitfield stays in the resume database: a crash during that verification restarts with every file present (HasMissing false) and trusts bits for data that is gone")
+		})
+	}
+	c.Floor("R05.9", "verifier starts in handlers that read Allocator.HasMissing", n, 1)
+}
